@@ -5558,6 +5558,15 @@ func (c *linkerContext) renameSymbolsInChunk(chunk *chunkInfo, filesInOrder []ui
 			}
 		}
 
+		// The "export_*" copies of re-exported CommonJS symbols are declared at
+		// the top level of an ESM entry point, so they must not collide with
+		// other top-level symbols in this chunk
+		if chunk.isEntryPoint && sourceIndex == chunk.sourceIndex {
+			for _, ref := range repr.Meta.CJSExportCopies {
+				r.AddTopLevelSymbol(ref)
+			}
+		}
+
 		nestedScopes[sourceIndex] = scopes
 	}
 	timer.End("Add top-level symbols")
